@@ -14,6 +14,8 @@ use std::fmt::{Display, Formatter};
 pub use binary_input::{BinaryInput, OwnedInput, SliceInput};
 pub use binary_output::{BinaryOutput, SizeCalculator};
 pub use deserializer::{BinaryDeserializer, DeserializationContext};
+#[cfg(desert_verif)]
+pub use deserializer::verif_hooks;
 pub use error::{Error, Result};
 pub use evolution::Evolution;
 pub use serializer::{serialize_iterator, BinarySerializer, SerializationContext};
